@@ -1534,6 +1534,14 @@ func (v *VMValue) ComputedExecute(ctx *Context, detail *BufferSpan) *VMValue {
 		vm.parser = &parser{data: []byte(cd.Expr)}
 		vm.parser.pt.offset = len(vm.parser.data)
 		vm.evaluate()
+		// 与首次执行(RunAfterParsed)保持一致：makeDetailStr 会用 Ret 判断"过程与结果相同则省略"
+		if vm.Error == nil {
+			if vm.top != 0 {
+				vm.Ret = &vm.stack[vm.top-1]
+			} else {
+				vm.Ret = NewNullVal()
+			}
+		}
 	}
 
 	if vm.Error != nil {
